@@ -4,6 +4,7 @@ import NeumannModel.Vault.Model
   Line-protocol driver for the vault model (C14).  All identities / secret names / values are
   alpha-renamed to numbers by the harness (identity 0 = `node:root`; secret name = ns*100 + k).
   Times are microseconds since the start of the history, measured by the harness.
+  A requester number >= 2000000 (`nodeKeyBase`) is the string `vault_secret:<obfuscated name of secret n-2000000>`.
 
     pol <adminLimit> <writeLimit> <horizon> <maxDelegDepth> <maxValueSize> <maxVersions>   (resets the state)
     set <now> <req> <sec> <val> <size>            get <now> <req> <sec>
@@ -134,8 +135,9 @@ def vaultStep (s : State) (line : String) : State × String :=
       | _ => bad
   | "perm" :: rest => match nats rest with
       | some [now, req, sec] =>
-        -- `Vault::get_permission`: a non-root caller expires grants first (state effect kept)
-        (if req = root then s else s.cleanup now,
+        -- `Vault::get_permission`: a caller that is neither root nor a secret-node key expires grants first
+        -- (state effect kept)
+        (if req = root || isNodeKey req then s else s.cleanup now,
          match s.getPermission now req sec with | some l => toString l.toNat | none => "none")
       | _ => bad
   | _ => bad
